@@ -64,6 +64,14 @@ def generate(seed, tier, index):
     npre = rh.randint(0, 3)
     for j in range(npre):
         k2 = rh.choice(C.KINDS)
+        if rh.chance(0.35):
+            # a sibling of the main model (same species, shape and reaction count; other boundary conditions,
+            # stoichiometry, constants) as pre-history: what caches keyed too coarsely would confuse
+            from .. import gen
+            sib = gen.sibling_spec(rh.sub("sib", j), main["phys"]["spec"], MAIN_P)
+            scripts.append(C.make_script_entry(rh.sub("pre", j, "s"), rh.sub("pre", j, "u"), rh.sub("pre", j, "k"),
+                                               rh.choice([k2, kind]), None, {"steps": (2, 15), "p_seed": 1.0}, rich=False, spec=sib))
+            continue
         scripts.append(C.make_script_entry(rh.sub("pre", j, "s"), rh.sub("pre", j, "u"), rh.sub("pre", j, "k"), k2,
                                            PRE_P, {"steps": (2, 15), "p_seed": 1.0}, rich=rh.chance(0.3)))
     # the Euler engine must not depend on the seed: a twin of S with another seed
